@@ -685,7 +685,20 @@ def probe_datacount():
     return None if ids.index(12) < ids.index(10) else "section order written: %s (datacount 12 must precede code 10)" % ids
 
 
+def probe_table_min0():
+    from ppci import wasm
+    from ppci.wasm import components as C
+
+    m = wasm.Module(C.Table(0, "funcref", 0, None))
+    try:
+        b2 = wasm.Module(m.to_string()).to_bytes()
+    except Exception as e:  # noqa
+        return "(table 0 funcref) prints as %r, Module(text) raises %s" % (m.to_string().split("\n")[1].strip(), type(e).__name__)
+    return None if b2 == m.to_bytes() else "table with min 0 and no max changes in the text round trip"
+
+
 PROBES = {
+    "text-table-min0-nomax-unparsable": probe_table_min0,
     "f32-signalling-nan-const-quieted": probe_snan,
     "nan-const-sign-payload-lost-in-text": probe_nan_text,
     "text-bulk-memory-immediate-unparsable": probe_bulk_text,
